@@ -47,14 +47,16 @@ def ok_or_failing(rng, state, k, fail, ids, pool):
     return B.msg_doc('roStorySend', 10 + k, story_ref=S[-1], body=[B.E('p', 'sent %d' % k)], fields=[B.E('storySlug', 's'), 'BODY'])
 
 
-def judge_twice(s, docs, how, tmpdir):
+def judge_twice(s, docs, how, tmpdir, first_strict=False):
     """merge() called twice on one collection == folding the messages twice over
-    the same running order (every second-pass add is an add like any other)."""
+    the same running order (every second-pass add is an add like any other).  With first_strict the
+    first call is a strict one (it may stop at the first failing message); the second, non-strict call
+    starts again from the first message."""
     import warnings as W
     mc, cerr = K.make_collection(s, docs, how, True, tmpdir)
     if mc is None:
         return
-    e1, w1 = K.merge_collection(s, mc, False)
+    e1, w1 = K.merge_collection(s, mc, first_strict)
     e2, w2 = K.merge_collection(s, mc, False)
     EV.drain()
     # reference: the hand fold, then every message again on the resulting object
@@ -74,6 +76,8 @@ def judge_twice(s, docs, how, tmpdir):
                     ro = ro + s.load(d)
                 except s.exc.MosMergeError:
                     fails[p_] += 1
+                    if p_ == 0 and first_strict:
+                        break               # the strict pass stops at its first failing message
                 except Exception:
                     foreign = True
     EV.drain()
@@ -81,8 +85,8 @@ def judge_twice(s, docs, how, tmpdir):
         return
     s.evaluations += 1
     n2 = w2.count('MosMergeNonStrictWarning')
-    s.note_sig(('twice', how, min(len(docs), 8), min(fails[1], 5), str(mc) == str(ro)))
-    wit = {'type': 'collection', 'docs': docs, 'strict': False, 'how': how, 'twice': True}
+    s.note_sig(('twice', how, first_strict, min(len(docs), 8), min(fails[1], 5), str(mc) == str(ro)))
+    wit = {'type': 'collection', 'docs': docs, 'strict': False, 'how': how, 'twice': True, 'first_strict': first_strict}
     if str(mc) != str(ro) or e2 is not None or n2 != fails[1]:
         s.custom_violation('second-merge-call-differs-from-adding-the-messages-again',
                            {'second_pass_failures_in_fold': fails[1], 'second_pass_warnings': n2,
@@ -210,6 +214,8 @@ def run(s):
                 judge_collection(s, docs, hows[c % 3], strict, tmpdir, 'random' if c % 7 != 3 else 'completed-base')
             if c % 5 == 1:
                 judge_twice(s, docs, hows[c % 3], tmpdir)
+            if c % 5 == 3:
+                judge_twice(s, docs, hows[c % 3], tmpdir, first_strict=True)
     finally:
         shutil.rmtree(tmpdir, ignore_errors=True)
 
@@ -218,6 +224,9 @@ def replay(s, data):
     w = data['witness']
     tmpdir = tempfile.mkdtemp(prefix='verif-c09-')
     try:
+        if w.get('twice'):
+            judge_twice(s, w['docs'], w.get('how', 'strings'), tmpdir, first_strict=w.get('first_strict', False))
+            return
         judge_collection(s, w['docs'], w.get('how', 'strings'), w['strict'], tmpdir, 'replay',
                          w.get('allow_incomplete', True))
     finally:
